@@ -35,6 +35,12 @@ CLAIMED = {
             "4.C17"),
     "C18": ("contract proof: nested-loop invariants + post of get_graph (one node per state, one edge per external transition, none for internal), _state_as_node, _transition_as_edge, relative to assumed pydot contracts",
             "4.C18"),
+    "C12": ("contract proof of the registry/executor/wrapper chain the providers feed (all providers' wrappers are invoked, guard conjunction across wrappers); BOUNDED stand-in (API layer) for Listeners.search_name/resolve/build and add_listener; recorded witnesses replayed",
+            "4.C12"),
+    "C15": ("BOUNDED stand-in (API layer: every rendering of random small abstract machines compared on states, events, allowed events) plus recorded witness; builder functions not under contract yet",
+            "4.C15"),
+    "C16": ("ownership frame scan over every heap write site of the package (committed ownership table, 171 sites) + StateMachine.__init__ freshness clauses; bounded API layer; recorded witnesses",
+            "4.C16"),
     "C13": ("contract proof: post of send (the callee is a bound event of that name for EVERY string) over a symbolic attribute table; Event.__call__ queues exactly one item",
             "4.C13"),
 }
